@@ -237,4 +237,6 @@ func init() {
 	register("C23", newC23, newC23NoFault)
 	register("C06", newC06Quiet, newC06Racing)
 	register("C20", newC20)
+	register("C22", newC22)
+	register("C21", newC21)
 }
